@@ -74,7 +74,8 @@ let check inp obs =
   if String.length probe <> 5 then fail "C05: bad probe %s" probe;
   let st = (probe.[1] = '1', probe.[2] = '1') and dfix = probe.[3] = '1' and gx = probe.[4] = '1' in
   let host = (List.hd (split_ws inp) = "hv") in
-  let via_state = (List.hd (split_ws inp) = "sp") in
+  let via_rpc = (List.hd (split_ws inp) = "rp") in
+  let via_state = (List.hd (split_ws inp) = "sp") || via_rpc in
   let inp_toks = if host || via_state then List.tl (split_ws inp) else split_ws inp in
   let ops = List.tl inp_toks in
   let state = Hashtbl.create 16 and foreign = Hashtbl.create 16 in
@@ -90,6 +91,7 @@ let check inp obs =
   tag ("v" ^ List.hd inp_toks);
   if host then tag "host-function";
   if via_state then tag "dot-state-GenerateTrieProof";
+  if via_rpc then tag "rpc-state_getReadProof";
   List.iter (fun op ->
       let a = String.split_on_char ':' op in
       match a with
@@ -214,7 +216,7 @@ let check inp obs =
 let coq inp obs =
   if obs = "hang" || obs = "panic" || String.length obs > 5000 then None else
   let toks = split_ws inp in
-  if List.hd toks = "hv" || List.hd toks = "sp" then None else
+  if List.hd toks = "hv" || List.hd toks = "sp" || List.hd toks = "rp" then None else
   try
     let c = { tok = Array.of_list (split_ws obs); pos = 0 } in
     let probe = next c in
